@@ -140,6 +140,11 @@ SceneOf(s) ==
         par |-> IF h(9) % 3 = 0 THEN 1 ELSE 0,
         pre |-> IF h(10) % 5 = 0 THEN 1 + (h(11) % 2) ELSE 0,
         decoy |-> IF h(12) % 5 = 0 THEN 1 + (h(13) % 2) ELSE 0,
+        \* entry point that puts the field on the canvas: 0 AddField, 1 AddFieldParallel, 2 AddFieldParallel2.
+        \* The union of a scene's features is ONE field whose sampling closure (CombineFields: an octree over
+        \* the features' domains) is shared by all jobs of a parallel entry point, one job per storage block:
+        \* every place but the first spans 2..8 blocks.  The contract does not depend on the entry point.
+        add |-> h(14) % 3,
         place |-> (s % NP) + 1]
 
 Init == \E s \in Scenes : sc = SceneOf(s)
